@@ -40,6 +40,7 @@ _K = None                 # the live kernel (at most one per process at a time)
 _instrumented = {}        # code object -> 'line'
 _touch_codes = set()      # code objects that read/write process-global state
 _strong_codes = set()     # functions of the modules that own process-wide state (enumerated switch points)
+_lookup_codes = set()     # the structure-lookup layer of core.py (find_child_reference & its callers)
 _tool_claimed = False
 
 
@@ -97,6 +98,18 @@ def _on_line(code, line):
     k.lines += 1
     t.lines += 1
     b = t.budget - 1
+    if k.sweep_lookup_at is not None and t.tid == 0 and code in _lookup_codes:
+        n = k.sweep_lookup_count
+        k.sweep_lookup_count = n + 1
+        if n == k.sweep_lookup_at:
+            k.sweep_lookup_at = None
+            t.hold_until = INF
+            k.deep_holds += 1
+            k.sweep_hit = (code.co_qualname, line)
+            t.budget = 0
+            t.last_pos = (code.co_qualname, line)
+            t.preempt()
+            return
     if k.sweep_thread_lines is not None and t.tid == 0 and t.lines == k.sweep_thread_lines:
         # fractional sweep: the first actor is pre-empted after exactly that many of its own line events
         k.sweep_thread_lines = None
@@ -210,6 +223,11 @@ def mark_strong(codes):
         _strong_codes.add(c)
 
 
+def mark_lookup(codes):
+    for c in codes:
+        _lookup_codes.add(c)
+
+
 def instrumented_count():
     return len(_instrumented)
 
@@ -314,6 +332,8 @@ class Kernel:
         self.sweep_at = None          # index of the strong-touch line event at which to force a switch
         self.sweep_count = 0
         self.sweep_thread_lines = None  # pre-empt thread 0 after exactly this many of its line events
+        self.sweep_lookup_at = None     # ... or at its n-th line event inside the lookup layer
+        self.sweep_lookup_count = 0
         self.sweep_hit = None
         self.import_waits = 0         # times a thread waited (through the baton) for a module import lock
         self.mean_budget = mean_budget
@@ -429,6 +449,12 @@ class Kernel:
         if self.stall_p and self.heap and self.heap[0][0] > self.now and \
                 self.stall_rng.random() < self.stall_p:
             return 'stall'
+        if self.sweep_thread_lines is not None or self.sweep_lookup_at is not None:
+            # a forced switch of actor 0 is pending: actor 0 runs up to it first, or the others may
+            # already have finished when it is parked and the switch decides nothing
+            for t in runnable:
+                if t.tid == 0:
+                    return t, self._draw_budget()
         if (self.deep_hold_at or self.sweep_at is not None or self.deep_holds) and len(runnable) > 1:
             free = [t for t in runnable if t.hold_until <= self.lines]
             if free:
